@@ -1,0 +1,9 @@
+//go:build verif
+
+package attestations
+
+// VerifVerifySignatures exposes the unexported verifySignatures to the /verif correspondence harness.
+// It does not exist without the `verif` build tag.
+func (cs *ClientState) VerifVerifySignatures(proof *AttestationProof, attestationType AttestationType) error {
+	return cs.verifySignatures(proof, attestationType)
+}
